@@ -102,17 +102,62 @@ Proof.
 Qed.
 Print Assumptions C16_encryption_only_never_for_signing.
 
-(* certs() raises only KeyError, exactly for: unknown entity / role type absent /
-   a use-matching key descriptor without X509 data *)
+(* certs() raises only KeyError, exactly for: unknown entity / named role type absent.  The model follows the library
+   with proposed_fix/C03-1: a use-matching key descriptor without X509Data (KeyName / KeyValue only) is skipped *)
 Theorem C16_certs_errors :
-  forall st eid d use x, d <> s2l "any" -> store_certs st eid d use = Err x ->
+  forall st eid d use x, store_certs st eid d use = Err x ->
     x = KeyError /\
     (store_get st eid = None \/
-     exists e, store_get st eid = Some e /\
-       (roles_of e (descr_key d) = [] \/
-        exists r k, In r (roles_of e (descr_key d)) /\ In k (r_keys r) /\ use_ok use k = true /\ kd_certs k = [])).
+     exists e, store_get st eid = Some e /\ d <> s2l "any" /\ roles_of e (descr_key d) = []).
 Proof. exact store_certs_err. Qed.
 Print Assumptions C16_certs_errors.
+
+(* FULL statement for a served entity: certs(eid, any, use) ANSWERS, with exactly the certificates the entity's key
+   descriptors declare for that use (use equal or absent) - whatever other key descriptors the entity carries *)
+Theorem C16_certs_serves_what_is_declared :
+  forall st eid use e, store_get st eid = Some e ->
+    exists l, store_certs st eid (s2l "any") use = Ok l /\
+      forall c, In c l <-> exists d, In d ANY_ROLES /\ role_declares use (roles_of e (descr_key d)) c.
+Proof.
+  intros st eid use e He. destruct (store_certs_answers st eid (s2l "any") use e He (or_introl eq_refl)) as [l Hl].
+  exists l. split; [exact Hl|]. destruct (store_certs_any_exact _ _ _ _ Hl) as (e' & He' & H).
+  rewrite He in He'. injection He' as <-. exact H.
+Qed.
+Print Assumptions C16_certs_serves_what_is_declared.
+
+(* the library BEFORE proposed_fix/C03-1 (store_certs_before_fix: key[key_info][x509_data] without .get) did not
+   satisfy it: one signing key descriptor with a KeyName only, and the certificate another signing key descriptor
+   of the same entity declares is not served - KeyError for the whole entity *)
+Definition kn_cert : str := s2l "QUFBQQ==".
+Definition kn_store : store :=
+  [(s2l "1", [(s2l "A", Build_entity (s2l "A") None
+     [Build_role T_IDP (Some SAML2P) [Build_keydesc (Some U_SIGNING) [kn_cert]; Build_keydesc (Some U_SIGNING) []] [] []] false [])])].
+Theorem C16_certs_before_fix_refuted :
+  exists st eid use e c,
+    store_get st eid = Some e /\
+    (exists d, In d ANY_ROLES /\ role_declares use (roles_of e (descr_key d)) c) /\
+    store_certs_before_fix st eid (s2l "any") use = Err KeyError /\
+    store_certs st eid (s2l "any") use = Ok [c].
+Proof.
+  exists kn_store, (s2l "A"), U_SIGNING.
+  eexists. exists kn_cert. split; [reflexivity|]. split; [|split; reflexivity].
+  exists (s2l "idpsso"). split; [vm_compute; tauto|].
+  eexists. exists (Build_keydesc (Some U_SIGNING) [kn_cert]), kn_cert.
+  split; [left; reflexivity|]. split; [left; reflexivity|]. split; [reflexivity|]. split; [left; reflexivity|reflexivity].
+Qed.
+Print Assumptions C16_certs_before_fix_refuted.
+
+(* ... and was the same function wherever it answered; it raised KeyError in exactly one more case *)
+Theorem C16_certs_before_fix_partial :
+  forall st eid d use,
+    match store_certs_before_fix st eid d use with
+    | Ok l => store_certs st eid d use = Ok l
+    | Err x => x = KeyError /\
+        (store_certs st eid d use = Err KeyError \/
+         exists e r k, store_get st eid = Some e /\ In r (e_roles e) /\ In k (r_keys r) /\ use_ok use k = true /\ kd_certs k = [])
+    end.
+Proof. exact store_certs_before_fix_char. Qed.
+Print Assumptions C16_certs_before_fix_partial.
 
 (* ---- (1) entity attributes / categories / attribute requirements ---------- *)
 Theorem C16_exact_entity_attributes :
@@ -490,17 +535,17 @@ Example C16_example :
 Proof. vm_compute. repeat split; try reflexivity. eexists; reflexivity. Qed.
 Print Assumptions C16_example.
 
-(* GLUE to C03 / C08 / C10 / C17 (Proofs/Glue_certs.v, docs/Glue.md): the certificates certs(eid, any, use) serves are
-   the ones Model/CertSelect.v's md_certs - the function signatures are checked under and assertions are encrypted
-   for - computes on this store read as a CertSelect store (certificate texts numbered by their position in the
-   list of all texts of the store): same certificates, same order, same duplicates dropped. *)
+(* GLUE to C03 / C08 / C10 / C17 (Proofs/Glue_certs.v, docs/Glue.md): certs(eid, any, use) IS Model/CertSelect.v's
+   md_certs - the function signatures are checked under and assertions are encrypted for - on this store read as a
+   CertSelect store (certificate texts numbered by their position in the list of all texts of the store): same
+   certificates, same order, same duplicates dropped; KeyError (unknown entity) there = None here.  No side condition. *)
 From PV Require Model.CertSelect Proofs.Glue_certs.
 Theorem C16_certs_is_the_function_signatures_are_checked_under :
-  forall st eid use l,
+  forall st eid use,
     let num := Glue_certs.num_of (Glue_certs.store_texts st) in
-    store_certs st eid (s2l "any") use = Ok l ->
-    CertSelect.md_certs (Glue_certs.abs_store num st) (Some eid) use = Some (map num l).
-Proof. intros st eid use l. exact (Glue_certs.md_certs_agree_canonical st eid use l). Qed.
+    CertSelect.md_certs (Glue_certs.abs_store num st) (Some eid) use =
+    match store_certs st eid (s2l "any") use with Ok l => Some (map num l) | Err _ => None end.
+Proof. intros st eid use. exact (Glue_certs.md_certs_eq_canonical st eid use). Qed.
 Print Assumptions C16_certs_is_the_function_signatures_are_checked_under.
 
 (* GLUE to C01 (Proofs/Glue_xsw.v): the pre-check of parse_and_check_signature (Model/MdSig.v md_precheck) is, on the
